@@ -12,6 +12,7 @@ Ledger: alloc/free of the server's node, buffer, control-bus and audio-bus
 allocator objects are wrapped (instance attributes).
 """
 
+import errno
 import struct
 
 from vf import osc, cmdref, model_cmds as mc
@@ -87,6 +88,8 @@ class Capture:
         self.main = main
         self.calls = []           # NRT: (n_elements,)   RT: (bytes, target)
         self.sync_replies = 0
+        self.fault_armed = False
+        self.faults_injected = 0
         itf = main._osc_interface
         self.itf = itf
         if mode == 'nrt':
@@ -99,6 +102,11 @@ class Capture:
             itf.send_bundle = send_bundle
         else:
             def _send(msg, target):
+                if self.fault_armed:
+                    # stands for the socket refusing the datagram
+                    self.fault_armed = False
+                    self.faults_injected += 1
+                    raise OSError(errno.EMSGSIZE, 'Message too long (injected)')
                 data = bytes(msg.dgram)
                 self.calls.append((data, target))
                 # stand-in for the server: every '/sync id' is answered with
@@ -216,6 +224,8 @@ class Runner:
             return self.server
         if '$node' in t:
             return self.objs[t['$node']]
+        if '$lit' in t:
+            return t['$lit']
         return self.objs[t['$int']].node_id
 
     def real_completion(self, c):
@@ -283,7 +293,15 @@ class Runner:
             self.note_node(op['out'], o)
         elif k == 'basic_new':
             cls = getattr(m, op['cls'])
-            o = cls.basic_new(op['def'], s) if op['cls'] == 'Synth' else cls.basic_new(s)
+            if 'node_id' in op:
+                o = cls.basic_new(op['def'], s, op['node_id']) if op['cls'] == 'Synth' \
+                    else cls.basic_new(s, op['node_id'])
+                if o.node_id != op['node_id']:
+                    raise Violation('C17/method/Node.basic_new(node_id)/'
+                                    'explicit-id-not-kept',
+                                    {'op': op, 'object_id': o.node_id})
+            else:
+                o = cls.basic_new(op['def'], s) if op['cls'] == 'Synth' else cls.basic_new(s)
             self.note_node(op['out'], o)
         elif k == 'node':
             o = self.objs[op['h']]
@@ -595,6 +613,9 @@ class Runner:
                                 raise rec['raised']
                         if item['raise_at'] is not None:
                             raise Boom()
+                        blk['body_done'] = True
+                        if item.get('exit_fault') == 'socket' and self.mode == 'rt':
+                            self.cap.fault_armed = True
                 except (Boom, Abort):
                     blk['failed'] = True
                     blk['escaped'] = 'Boom'
@@ -603,15 +624,21 @@ class Runner:
                 except Exception as e:
                     blk['failed'] = True
                     blk['escaped'] = type(e).__name__
-                    if not (item.get('propagate') and blk['recs']
-                            and blk['recs'][-1]['raised'] is e):
+                    if item.get('exit_fault') and blk.get('body_done'):
+                        blk['exit_failed'] = True      # the provoked failing exit
+                    elif not (item.get('propagate') and blk['recs']
+                              and blk['recs'][-1]['raised'] is e):
                         blk['unexpected_escape'] = e
+                self.cap.fault_armed = False
+                blk['exit_fault'] = item.get('exit_fault')
                 blk['call1'] = len(self.cap.calls)
                 blk['addr_restored'] = self.server.addr is addr_before
                 blk['calls_during'] = blk['recs'][-1]['call1'] - blk['call0'] \
                     if blk['recs'] else 0
                 self.stream.append(('block', blk))
                 self.count('bind_blocks_failed' if blk['failed'] else 'bind_blocks_ok')
+                if blk.get('exit_failed'):
+                    self.count(f"bind_blocks_exit_failed:{blk['exit_fault']}:{blk['escaped']}")
                 idx += 1
                 if self.aborted:
                     return
@@ -655,6 +682,13 @@ class Judge:
             # a sequence (the equivalent list form is sent as a [ ] array)
             wit['manifestation'] = key
             key = 'C17/method/Synth(dict args)/sequence-value-not-sent-as-array'
+        if op and isinstance(op.get('target'), dict) and '$lit' in op['target'] \
+                and key.startswith(('C17/method/', 'C17/ledger/', 'C17/ids/')) \
+                and key.rsplit('/', 1)[-1] in ('arg-mismatch', 'unexpected-allocation',
+                                              'node-id-not-allocated'):
+            # class of input: a plain int (0 root, 1 default group) as target
+            wit['manifestation'] = key
+            key = 'C17/target/plain-int-target/' + key.rsplit('/', 1)[-1]
         raise Violation(key, wit)
 
     # ---- per op -------------------------------------------------------------------
@@ -841,8 +875,11 @@ class Judge:
             self.fail('C17/bind/server-address-not-proxied-inside-block', pseudo)
         if not blk['addr_restored']:
             self.fail('C17/bind/server-address-not-restored/'
-                      + ('after-exception' if blk['failed'] else 'after-normal-exit'),
-                      pseudo)
+                      + ('after-failing-exit' if blk.get('exit_failed') else
+                         'after-exception' if blk['failed'] else 'after-normal-exit'),
+                      pseudo, exit_fault=blk.get('exit_fault'), escaped=blk.get('escaped'))
+        if blk.get('exit_failed'):
+            self.count('exit_fault_blocks_checked')
         if blk['calls_during']:
             self.fail('C17/bind/command-sent-before-block-exit', pseudo,
                       got=[g.plain() for g, _ in
